@@ -8,7 +8,8 @@ import PyomaVerif.Props.C03Table
   `pinv` argument of pass `kk` is `oRef …` of that factor, the `qr` argument is `upPart Obs_all n_DOF`, the `inv`
   arguments are the leading blocks of `R`, `(A, C) = fastLists … n_DOF ordmax step`, the `build_hank` arguments are
   `ssiMsHankArgs Y kk`, with the head of `ssiMsHead` — and the guards that let it return (`step > 0`, `br > 0`,
-  at least `ordmax` singular values and columns of `U` per setup, a reference and a roving sensor per setup).
+  at least `ordmax` singular values and columns of `U` per setup, a reference and a roving sensor per setup, every
+  visited order within the rows of `R`).
 * `ssiMultiSetup_returns` — the converse: those guards make it return (no other exception branch).
 * `ssiMultiSetup_empty`, `ssiMultiSetup_step_zero`, `ssiMultiSetup_clip` — the exception branches.
 * `C03_e2e_whole` — the `Conclusion` of `C03_e2e_cov` / `C03_e2e_dat` read off the OUTPUT of the executed function:
@@ -173,6 +174,7 @@ theorem ssiMultiSetup_eq (Y : List (Setup L)) (br ordmax step : ℕ) (rc : MsRec
     ssiMultiSetup Y br ordmax step rc = .ok out ↔
       ∃ h, ssiMsHead Y = some h ∧ 0 < br ∧ 0 < step
         ∧ (∀ kk, kk < Y.length → PassOK Y h br ordmax rc kk)
+        ∧ (∀ k, k < (ordmax + 1 + step - 1) / step → min (k * step) rc.R.r = min (k * step) rc.R.c)
         ∧ out.head = h
         ∧ out.hankArgs.map some = (List.range Y.length).map (ssiMsHankArgs Y)
         ∧ out.pinvArgs = (List.range Y.length).map
@@ -197,7 +199,7 @@ theorem ssiMultiSetup_eq (Y : List (Setup L)) (br ordmax step : ℕ) (rc : MsRec
     cases hl : msSetupLoop Y h br ordmax rc (List.range h.n_setup) with
     | error e =>
       simp only [reduceCtorEq, false_iff, not_and]
-      intro _ _ hp _ h1 h2
+      intro _ _ hp _ _ h1 h2
       have := (msSetupLoop_ok_iff Y h br ordmax rc (List.range h.n_setup)
         (List.zip out.hankArgs out.pinvArgs)).mpr ⟨?_, ?_, ?_⟩
       · rw [hl] at this; exact absurd this (by simp)
@@ -226,6 +228,21 @@ theorem ssiMultiSetup_eq (Y : List (Setup L)) (br ordmax step : ℕ) (rc : MsRec
       by_cases hs : step = 0
       · rw [if_pos hs]; simp only [reduceCtorEq, false_iff, not_and]; intro _ h0; omega
       rw [if_neg hs]
+      by_cases hsq : (List.range ((ordmax + 1 + step - 1) / step)).any
+          (fun k => decide (min (k * step) rc.R.r ≠ min (k * step) rc.R.c)) = true
+      · rw [if_pos hsq]
+        simp only [reduceCtorEq, false_iff, not_and]
+        intro _ _ _ hR
+        rw [List.any_eq_true] at hsq
+        obtain ⟨k, hk, hne⟩ := hsq
+        exact absurd (hR k (List.mem_range.mp hk)) (of_decide_eq_true hne)
+      rw [if_neg hsq]
+      have hR : ∀ k, k < (ordmax + 1 + step - 1) / step → min (k * step) rc.R.r = min (k * step) rc.R.c := by
+        intro k hk
+        by_contra hne
+        apply hsq
+        rw [List.any_eq_true]
+        exact ⟨k, List.mem_range.mpr hk, decide_eq_true hne⟩
       simp only [Except.ok.injEq]
       have hp : ∀ kk, kk < Y.length → PassOK Y h br ordmax rc kk := by
         intro kk hkk; exact i1 kk (List.mem_range.mpr (by rw [hlen]; exact hkk))
@@ -233,8 +250,8 @@ theorem ssiMultiSetup_eq (Y : List (Setup L)) (br ordmax step : ℕ) (rc : MsRec
         rw [← hlen, ← i2, List.map_map]; rfl
       constructor
       · rintro rfl
-        exact ⟨by omega, by omega, hp, rfl, e2, by rw [← hlen]; exact i3, rfl, rfl, rfl, rfl⟩
-      · rintro ⟨_, _, _, h0, h1, h2, h3, h4, h5, h6⟩
+        exact ⟨by omega, by omega, hp, hR, rfl, e2, by rw [← hlen]; exact i3, rfl, rfl, rfl, rfl⟩
+      · rintro ⟨_, _, _, _, h0, h1, h2, h3, h4, h5, h6⟩
         obtain ⟨oh, oha, opa, oo, oq, oi, oA, oC⟩ := out
         simp only at h0 h1 h2 h3 h4 h5 h6
         subst h0 h3 h4 h5
@@ -288,7 +305,8 @@ theorem filterMap_map_some {α β : Type} (f : α → Option β) (l : List α) (
 /-- **`ssiMultiSetup_returns`**: for `br, step ≥ 1` and passes that are all `PassOK` the model returns. -/
 theorem ssiMultiSetup_returns (Y : List (Setup L)) (br ordmax step : ℕ) (rc : MsRec K) (h : MsHead)
     (hh : ssiMsHead Y = some h) (hbr : 0 < br) (hs : 0 < step)
-    (hp : ∀ kk, kk < Y.length → PassOK Y h br ordmax rc kk) :
+    (hp : ∀ kk, kk < Y.length → PassOK Y h br ordmax rc kk)
+    (hR : ∀ k, k < (ordmax + 1 + step - 1) / step → min (k * step) rc.R.r = min (k * step) rc.R.c) :
     ∃ out, ssiMultiSetup Y br ordmax step rc = .ok out := by
   let Oa := msObsAll br ordmax h.n_ref h.n_mov (obFn rc ordmax) rc.P
   refine ⟨{ head := h,
@@ -300,11 +318,119 @@ theorem ssiMultiSetup_returns (Y : List (Setup L)) (br ordmax step : ℕ) (rc : 
             A := (fastLists rc.Rinv rc.Q Oa h.n_DOF ordmax step).1,
             C := (fastLists rc.Rinv rc.Q Oa h.n_DOF ordmax step).2 }, ?_⟩
   rw [ssiMultiSetup_eq]
-  refine ⟨h, hh, hbr, hs, hp, rfl, ?_, rfl, rfl, rfl, rfl, rfl⟩
+  refine ⟨h, hh, hbr, hs, hp, hR, rfl, ?_, rfl, rfl, rfl, rfl, rfl⟩
   apply filterMap_map_some
   intro kk hkk
   obtain ⟨a, ha, _⟩ := (hp kk (List.mem_range.mp hkk)).hank
   rw [ha]; rfl
 
 end main
+
+/-! ## the end-to-end conclusion read off the output of the executed function -/
+section e2e
+open PV.C03E2E PV.C01E2E PV.C03C11 PV.C01Table PV.FreeVib
+
+theorem ssiMsHead_dof {L : Type} (Y : List (Setup L)) (h : MsHead) (hh : ssiMsHead Y = some h) :
+    h.n_DOF = h.n_ref + h.n_mov.sum := by
+  unfold ssiMsHead at hh
+  cases Y with
+  | nil => simp at hh
+  | cons y ys => simp only [Option.some.injEq] at hh; rw [← hh]
+
+/-- **C03_e2e_whole.**  `Conclusion` of `C03_e2e_cov` / `C03_e2e_dat` (for the recorded `U`, `sqrt S`, `pinv`, `Q`,
+    `inv` results) and a returning run of the EXECUTED model `ssiMultiSetup Y br N 1 rc` on those records, whose
+    head counts `refIds.length` references and `movIds[i].length` roving sensors.  Then the `Obs_all` the function
+    returns is the matrix the conclusion speaks about, and list position `n` of the returned `A`, `C` holds the
+    pair from which the global mode is `Recovered` (frequency, damping, shape over all sensors).
+    Hypotheses beyond the property's premise: none new — `hcon` is the conclusion of the e2e theorems, the rest
+    says which recorded result is which. -/
+theorem C03_e2e_whole {n : ℕ} (A : Matrix (Fin n) (Fin n) ℚ) (Cg : ℕ → Fin n → ℚ) (br N : ℕ)
+    (refIds : List ℕ) (movIds : List (List ℕ)) (hne : movIds ≠ [])
+    (U : ℕ → Mat ℚ) (S sq : ℕ → ℕ → ℚ) (P : ℕ → Mat ℚ) (Q Rinv : Mat ℚ)
+    (Vf : Mat (Cpx ℚ)) (lamf : ℕ → Cpx ℚ) (dt : ℝ) (lam : Cpx ℚ) (w : Fin n → Cpx ℚ) (mu : ℂ)
+    (hcon : Conclusion A Cg br N refIds movIds U S sq P Q Rinv Vf lamf dt lam w mu)
+    {L : Type} (Y : List (Setup L)) (rc : MsRec ℚ) (out : MsOut L ℚ)
+    (hrun : ssiMultiSetup Y br N 1 rc = .ok out)
+    (hr : out.head.n_ref = refIds.length) (hm : out.head.n_mov = movIds.map List.length)
+    (hU : rc.U = U) (hsq : ∀ i, sqFn rc i = sq i) (hP : rc.P = P) (hQ : rc.Q = Q) (hRi : rc.Rinv n = Rinv) :
+    out.obsAll = obsAllOf br N refIds movIds U sq P ∧
+    ∃ An Cn, out.A[n]? = some An ∧ out.C[n]? = some Cn ∧
+      Recovered A (msC Cg (orderOf refIds movIds)) (nDof refIds movIds) dt lam w mu An Cn Vf lamf := by
+  obtain ⟨h, hh, _, _, _, _, hhead, _, _, hobs, _, _, hAC⟩ := (ssiMultiSetup_eq Y br N 1 rc out).mp hrun
+  subst hhead
+  have hdof : out.head.n_DOF = nDof refIds movIds := by
+    rw [ssiMsHead_dof Y _ hh, hr, hm]
+  have hob : obFn rc N = fun i => obsOf (U i) (sq i) N := by
+    funext i; simp only [obFn, hsq i, hU]
+  have hobs' : out.obsAll = obsAllOf br N refIds movIds U sq P := by
+    rw [hobs, hr, hm, hob, hP]
+  obtain ⟨hrank, _, hrec⟩ := hcon
+  obtain ⟨m0, h0⟩ : ∃ m0, movIds[0]? = some m0 := by
+    cases hmov : movIds with
+    | nil => exact absurd hmov hne
+    | cons x xs => exact ⟨x, rfl⟩
+  have hn : n ≤ N := (hrank 0 m0 h0).1
+  obtain ⟨g1, g2⟩ := fastLists_get rc.Rinv rc.Q out.obsAll out.head.n_DOF N n hn
+  have hA : out.A = (fastLists rc.Rinv rc.Q out.obsAll out.head.n_DOF N 1).1 := congrArg Prod.fst hAC
+  have hC : out.C = (fastLists rc.Rinv rc.Q out.obsAll out.head.n_DOF N 1).2 := congrArg Prod.snd hAC
+  refine ⟨hobs', _, _, by rw [hA]; exact g1, by rw [hC]; exact g2, ?_⟩
+  rw [hRi, hQ, hobs', hdof]
+  exact hrec
+
+end e2e
+
+/-! ## Non-vacuity: the two-setup instance of `Props/C03E2E.lean` (`Ex`) run through the executed function -/
+namespace Ex
+open PV.C03E2E PV.C03E2E.Ex
+
+/-- the per-setup records as `gen.pre_multisetup` hands them over: reference row, roving row -/
+def Ys : List (Setup ℚ) :=
+  [⟨Mat.rowSlice Y0 0 1, Mat.rowSlice Y0 1 2⟩, ⟨Mat.rowSlice Y1 0 1, Mat.rowSlice Y1 1 2⟩]
+
+def rc : MsRec ℚ :=
+  { U := U, sq := fun i => if i = 0 then [12, 12] else [24, 24], P := P, Q := Q, R := R, Rinv := fun _ => Rinv }
+
+theorem sq_eq (i : ℕ) : sqFn rc i = C03E2E.Ex.sq i := by
+  funext j
+  by_cases hi : i = 0
+  · subst hi
+    simp only [sqFn, rc, C03E2E.Ex.sq, if_true, sq0]
+    match j with
+    | 0 => rfl
+    | 1 => rfl
+    | j + 2 => simp
+  · simp only [sqFn, rc, C03E2E.Ex.sq, if_neg hi, sq1]
+    match j with
+    | 0 => rfl
+    | 1 => rfl
+    | j + 2 => simp
+
+/-- the executed model returns on the instance (`ssiMultiSetup_returns`: all its hypotheses hold jointly) … -/
+theorem returns : ∃ out, ssiMultiSetup Ys 3 2 1 rc = .ok out :=
+  ssiMultiSetup_returns Ys 3 2 1 rc ⟨2, 1, [1, 1], 3⟩ rfl (by decide) (by decide)
+    (fun kk hkk => by
+      have : kk = 0 ∨ kk = 1 := by simp only [Ys, List.length_cons, List.length_nil] at hkk; omega
+      rcases this with rfl | rfl
+      · exact ⟨⟨_, rfl, rfl⟩, by decide, by decide, by decide, by decide, by decide⟩
+      · exact ⟨⟨_, rfl, rfl⟩, by decide, by decide, by decide, by decide, by decide⟩)
+    (by decide)
+
+/-- … and what it returns holds the recovered global mode at list position 2 (`C03_e2e_whole` with the
+    `Conclusion` proved in `C03E2E.Ex.recovered`) -/
+theorem whole : ∃ out, ssiMultiSetup Ys 3 2 1 rc = .ok out ∧
+    out.obsAll = obsAllOf 3 2 refIds movIds U C03E2E.Ex.sq P ∧
+    ∃ An Cn, out.A[2]? = some An ∧ out.C[2]? = some Cn ∧
+      C01E2E.Recovered A (MsFreeVib.msC Cg (C03C11.orderOf refIds movIds)) (nDof refIds movIds) (1 / 100)
+        C01E2E.ExDat.lam C01E2E.ExDat.w C01E2E.ExDat.mu An Cn C01E2E.ExDat.Vec C01E2E.ExDat.lams := by
+  obtain ⟨out, hout⟩ := returns
+  obtain ⟨h, hh, _, _, _, _, hhead, _⟩ := (ssiMultiSetup_eq Ys 3 2 1 rc out).mp hout
+  have hh' : h = ⟨2, 1, [1, 1], 3⟩ := by
+    have : ssiMsHead Ys = some ⟨2, 1, [1, 1], 3⟩ := rfl
+    rw [this] at hh; injection hh with hh; exact hh.symm
+  refine ⟨out, hout, ?_⟩
+  exact C03_e2e_whole A Cg 3 2 refIds movIds (by decide) U S C03E2E.Ex.sq P Q Rinv _ _ _ _ _ _ recovered Ys rc out hout
+    (by rw [hhead, hh']; rfl) (by rw [hhead, hh']; rfl) rfl sq_eq rfl rfl rfl
+
+end Ex
+
 end PV.C03Whole
